@@ -8,7 +8,7 @@ Open Scope string_scope.
 Definition alph_of (i : N) : list N := if N.eqb i 0 then b58_alph_btc else b58_alph_xrp.
 Definition bool_of (n : N) : bool := negb (N.eqb n 0).
 
-Definition api (ask : string -> list val -> val) : list api_entry :=
+Definition api_main (ask : string -> list val -> val) : list api_entry :=
   let sha := o_sha256 ask in
   let rip := o_ripemd160 ask in
   let kec := o_keccak256 ask in
@@ -50,3 +50,25 @@ Definition api (ask : string -> list val -> val) : list api_entry :=
   ("aptos_encode", fun a => match a with [VN t; VB pub] => Ok (VB (AddrB58.aptos_encode sha3 (bool_of t) pub)) | _ => bad_call end);
   ("aptos_decode", fun a => match a with [VB s] => rb (AddrB58.aptos_decode s) | _ => bad_call end)
 ].
+
+(* Taproot output key (Model/Taproot.v); curve arithmetic through the ec_* oracles (curve id 0) *)
+From BU Require Model.Taproot.
+From BU Require Import Base.Radix.
+
+Definition pt_of_val (v : val) : option (N * N) :=
+  match v with VL [VN x; VN y] => Some (x, y) | _ => None end.
+Definition val_of_pt (p : option (N * N)) : val :=
+  match p with Some (x, y) => VL [VN x; VN y] | None => VL [] end.
+
+Definition api_taproot (ask : string -> list val -> val) : list api_entry :=
+  let sha := o_sha256 ask in
+  let sqrt_even := fun x => match ask "ec_lift_x" [VN 0; VN x; VN 0] with VL [VN _; VN y] => Some y | _ => None end in
+  let ec_add := fun p q => pt_of_val (ask "ec_add" [VN 0; val_of_pt p; val_of_pt q]) in
+  let order := o_N ask "ec_order" [VN 0] in
+  (* coincurve: scalar 0 or >= n is refused with ValueError *)
+  let mul_base := fun k => if orb (N.eqb k 0) (N.leb order k) then Err ValueError
+                           else Ok (pt_of_val (ask "ec_mul" [VN 0; VN k; ask "ec_base" [VN 0]])) in
+  [ ("taproot_tweak", fun a => match a with [VB pub] =>
+       rb (Taproot.tweak sha sqrt_even ec_add mul_base secp_coord_len pub) | _ => bad_call end) ].
+
+Definition api (ask : string -> list val -> val) : list api_entry := api_main ask ++ api_taproot ask.
